@@ -25,6 +25,9 @@ CHECKS={
  "C12":dict(cat="exploration",technique="runtime monitoring: byte-equality against the plain call over exhaustive/seeded chunkings, offline checker over a logical-clock event log of the writer wrapper, HTTP header oracle, race-detector child, seeded schedule perturbation",
    text="Reader, Writer, Bytes, String, ResponseWriter, Middleware and MiddlewareWithError are driven with every partition of short inputs (exhaustive up to a length bound) and seeded partitions of long ones, paced consumers, injected Gosched/sleep at the real suspension points and three GOMAXPROCS values; output bytes and errors must equal the plain call, the recorded event order must show all destination writes and the minifier's return before Close returns with the minifier's error, and the HTTP wrappers must choose the minifier by Content-Type then path extension and never send a stale Content-Length.",
    note="Chunkings exhaustive only for short inputs; schedules are sampled (177+ distinct event interleavings per quick run); the parser dependency currently reads the whole stream first, so token-boundary refill bugs cannot exist today.",ref="DESIGN.md §5 C12"),
+ "C13":dict(cat="exploration",technique="runtime monitoring: Go race detector over a concurrent operation mix on one shared registry (fresh -race processes), differential check against the sequential reference, option-struct shadow snapshots, goroutine-dump blocking probe, cross-process output digest",
+   text="N goroutines issue Minify/Bytes/String/Reader/Writer/Match/MinifyMimetype calls on one cold, fully registered registry with shared non-default option structs over a pool that includes re-entrant documents; every result must equal the sequential reference from a separate registry, the option structs and the callers' inputs must be unchanged, repeating the sequential calls afterwards must give the same bytes, no call may block another (probe with a stub that only a second concurrent call can release), fresh -race children must report no race in minify code, and the output digest must agree across processes.",
+   note="Schedules are sampled (three GOMAXPROCS/goroutine settings, repeated fresh processes); the race detector sees only races that occur; registration concurrent with use is excluded by the property.",ref="DESIGN.md §5 C13"),
  "C14":dict(cat="fault_enumeration",technique="runtime monitoring: fault-injecting reader/writer doubles at every position with sentinel-error oracle, call-budget progress monitor, goroutine-dump blocked-forever detector, race-detector child",
    text="For every input of a pool (hand-written incl. truncations of each, generated, repository corpus) of all six media types, the reader is made to fail after every byte count (three fault shapes, three error kinds incl. errors wrapping io.EOF) and the writer from every write index on, through Minify, Reader, Writer and ResponseWriter; the call must return the injected error and must return at all.",
    note="Complete over fault positions of each observed input (sampled above 512); inputs themselves are a finite pool. Blocking is decided from unchanging goroutine dumps, never from elapsed time alone.",ref="DESIGN.md §5 C14"),
